@@ -11,6 +11,7 @@ See DESIGN.md C15.
 
 import builtins as pybuiltins
 import inspect
+import json
 import math
 import operator
 import re
@@ -401,6 +402,11 @@ class Env:
     def __init__(self, case):
         self.x = num(case['x'])
         self.pmode = case['pmode']
+        # streams are pulled with input values x, x + 1, ... when a leaf
+        # depends on them (then never through the plain iterator protocol)
+        self.invals = 'pfunc' in json.dumps(case['expr'])
+        if self.invals and self.pmode == 'iter':
+            self.pmode = 'embed'
 
 
 def make_leaf(e, env):
@@ -433,6 +439,10 @@ def make_leaf(e, env):
         return stream_fn(Pseq(vals, 1))
     if k == 'pat':
         vals = [num(v) for v in e['vals']]
+        if e['impl'] == 'pfunc':
+            from sc3.seq.patterns.funcpatterns import Pfunc
+            m, c = vals[0], vals[-1]
+            return Pfunc(lambda inval: m * inval + c)
         return Pseq(vals, 1) if e['impl'] == 'pseq' else pvals(vals)
     if k == 'lst':
         items = [nested_py(i) for i in e['items']]
@@ -462,6 +472,10 @@ def model_leaf(e, env):
             return Seq([vals[i % len(vals)] for i in range(CAP)], False)
         return Seq(vals, True)
     if k == 'pat':
+        if e['impl'] == 'pfunc':
+            m, c = num(e['vals'][0]), num(e['vals'][-1])
+            # the i-th next() is given the input value x + i
+            return Seq([m * (env.x + i) + c for i in range(CAP)], False)
         return Seq([num(v) for v in e['vals']], True)
     if k == 'lst':
         return Lst([nested_model(i) for i in e['items']])
@@ -535,9 +549,9 @@ def denote(obj, env):
     if isinstance(obj, Stream):
         items = []
         done = False
-        for _ in range(CAP):
+        for i in range(CAP):
             try:
-                v = obj.next()
+                v = obj.next(env.x + i) if env.invals else obj.next()
             except StopIteration:       # StopStream is a StopIteration
                 done = True
                 break
@@ -731,8 +745,11 @@ def leaf_st(kind, flav, plain_list=False):
                          st.sampled_from(['routine', 'routine', 'fstream',
                                           'pstream']), vals)
     if kind == 'pat':
+        # 'pfunc': an endless pattern whose value depends on the input
+        # value of each next() call (m * inval + c, m = first, c = last)
         return st.builds(lambda i, vs: {'k': 'pat', 'impl': i, 'vals': vs},
-                         st.sampled_from(['pseq', 'pseq', 'deco']), vals)
+                         st.sampled_from(['pseq', 'pseq', 'deco', 'pfunc']),
+                         vals)
     if kind == 'lst':
         tops = ['l', 'l', 't'] if plain_list else ['chl', 'chl', 'chl', 'ap']
         return st.builds(lambda t, xs: {'k': 'lst', 'top': t, 'items': xs},
@@ -1004,6 +1021,17 @@ def run_law(case, v):
                 v.check(M.is_multiple(Fraction(x) - Fraction(r), period),
                         'wrap_not_congruent',
                         lambda: info(r) + f', period {period!r}')
+                # wrapping is periodic: x and its representative inside the
+                # bounds (x shifted by whole periods into [lo, lo + period))
+                # wrap to the same value
+                x0 = Fraction(lo) + (Fraction(x) - Fraction(lo)) % period
+                x0 = type(x)(x0)
+                if Fraction(x0) == Fraction(lo) + (
+                        Fraction(x) - Fraction(lo)) % period:
+                    r0 = bi.wrap(x0, lo, hi)
+                    v.check(r0 == r, 'wrap_not_periodic',
+                            lambda: info(r) + f' but wrap({x0!r}, ...) = '
+                            f'{r0!r}')
             else:
                 ref = M.fold_ref(x, lo, hi)
                 v.check(Fraction(r) == ref, 'fold_not_reflection',
